@@ -320,3 +320,61 @@ pub fn check_preorder(tree: &RTree) -> Result<(), String> {
     let mut next = 0;
     walk(tree, &mut next)
 }
+
+#[cfg(test)]
+mod tests {
+    use super::*;
+    use crate::dom::read_doc;
+    use crate::refmodel::infer;
+    use crate::rsast::{parse_rendered, resolve};
+
+    const SRC: &str = "pub struct R {\n    #[serde(rename = \"@x\")]\n    pub x: Option<String>,\n    #[serde(rename = \"$text\")]\n    pub text: Option<String>,\n    pub a: Vec<A>,\n    pub b: Option<String>,\n}\n\npub struct A {\n    #[serde(rename = \"@y\")]\n    pub y: String,\n}\n\n";
+
+    fn root(x: &str) -> crate::dom::Node {
+        read_doc(x).unwrap().root.unwrap()
+    }
+
+    #[test]
+    fn soundness_accepts_and_rejects() {
+        let s = parse_rendered(SRC).unwrap();
+        let t = resolve(&s).unwrap();
+        let b = Binding::quick_xml();
+        let ok = ["<r><a y='1'/></r>", "<r x='1'>t<a y='1'/><a y='2'/><b>t</b></r>", "<r><a y='1'/><b/></r>"];
+        for d in ok {
+            assert!(check_sound(&root(d), &s, &t, &b, "").is_ok(), "{}", d);
+        }
+        let bad = [
+            ("<r/>", "required-field-absent"),
+            ("<r z='1'><a y='1'/></r>", "attribute-unbound"),
+            ("<r><a y='1'/><c/></r>", "child-unbound"),
+            ("<r><a y='1'/><b/><b/></r>", "child-not-vec"),
+            ("<r><a y='1'>t</a></r>", "text-unbound"),
+            ("<r><a y='1'/><b q='1'/></r>", "string-typed-has-structure"),
+            ("<r><a/></r>", "required-field-absent"),
+        ];
+        for (d, class) in bad {
+            assert_eq!(check_sound(&root(d), &s, &t, &b, "").unwrap_err().0, class, "{}", d);
+        }
+    }
+
+    #[test]
+    fn exactness_and_order() {
+        let s = parse_rendered(SRC).unwrap();
+        let t = resolve(&s).unwrap();
+        let b = Binding::quick_xml();
+        let docs = [root("<r x='1'>t<a y='1'/><a y='2'/><b>t</b></r>"), root("<r><a y='3'/></r>")];
+        let e = infer(&docs.iter().collect::<Vec<_>>());
+        assert!(check_exact(&e, &s, &t, &b, Order::Document, "").is_ok());
+        assert!(check_exact(&e, &s, &t, &b, Order::XmlName, "").is_ok());
+        assert!(check_preorder(&t).is_ok());
+        // b before a in the document: same set, different order
+        let docs2 = [root("<r x='1'>t<b>t</b><a y='1'/><a y='2'/></r>"), root("<r><a y='3'/></r>")];
+        let e2 = infer(&docs2.iter().collect::<Vec<_>>());
+        assert!(check_exact(&e2, &s, &t, &b, Order::Ignore, "").is_ok());
+        assert!(check_exact(&e2, &s, &t, &b, Order::Document, "").is_err());
+        // a not repeated: Vec is spurious
+        let docs3 = [root("<r x='1'>t<a y='1'/><b>t</b></r>"), root("<r><a y='3'/></r>")];
+        let e3 = infer(&docs3.iter().collect::<Vec<_>>());
+        assert!(check_exact(&e3, &s, &t, &b, Order::Ignore, "").is_err());
+    }
+}
